@@ -871,6 +871,62 @@ fn cmd_accepts() {
     }
 }
 
+/// backward: stdin lines "FEN".  Backward analysis in ONE cache: for the position R, some of its legal moves m (at most 6) and some
+/// replies r (at most 4): search R+m+r, then R+m, then R, each to depth 2 WITHOUT clearing the cache in between (the cache then holds
+/// ROOT entries of the successors when their predecessor is searched — a GUI stepping backwards through a game).  Every search must
+/// name a legal move of the position searched.  Output: {"searches":n,"bad":[{"moves":"m r","best":".."}]}
+fn cmd_backward() {
+    use crate::board::transposition_table::TRANSPOSITION_TABLE;
+    use crate::search::Search;
+    let mut o = out();
+    for line in std::io::stdin().lock().lines() {
+        let fen = line.unwrap().trim().to_string();
+        if fen.is_empty() {
+            continue;
+        }
+        let r = catch_unwind(AssertUnwindSafe(|| {
+            TRANSPOSITION_TABLE.write().unwrap().clear();
+            *crate::search::verif::TRACE.lock().unwrap() = None;
+            let mut b = Board::from_fen(&fen);
+            let mut n = 0u32;
+            let mut bad: Vec<String> = Vec::new();
+            let mut probe = |b: &mut Board, path: &str, bad: &mut Vec<String>, n: &mut u32| {
+                let legal = b.get_legal_moves();
+                if legal.is_empty() {
+                    return;
+                }
+                let mut search = Search::new(b, None);
+                search.search(&SimpleEvaluator, Some(2));
+                *n += 1;
+                let (bm, _, _, _) = search.verif_result();
+                let ok = bm.is_some_and(|c| legal.iter().any(|m| m.start == c.start && m.dest == c.dest && m.promoted_to == c.promoted_to));
+                if !ok {
+                    bad.push(format!("{{\"moves\":\"{}\",\"best\":\"{}\"}}", path, bm.map_or("none".to_string(), |c| c.to_notation())));
+                }
+            };
+            let ms = b.get_legal_moves();
+            for m in ms.iter().take(6) {
+                b.make_move(*m);
+                let rs = b.get_legal_moves();
+                for r in rs.iter().take(4) {
+                    b.make_move(*r);
+                    probe(&mut b, &format!("{} {}", m.to_notation(), r.to_notation()), &mut bad, &mut n);
+                    b.unmake_move();
+                }
+                probe(&mut b, &m.to_notation(), &mut bad, &mut n);
+                b.unmake_move();
+            }
+            probe(&mut b, "", &mut bad, &mut n);
+            TRANSPOSITION_TABLE.write().unwrap().clear();
+            format!("{{\"searches\":{},\"bad\":[{}]}}", n, bad.join(","))
+        }));
+        match r {
+            Ok(s) => writeln!(o, "{s}").unwrap(),
+            Err(_) => writeln!(o, "{{\"panic\":true}}").unwrap(),
+        }
+    }
+}
+
 /// playable: stdin lines "FEN | m1 m2 ..." -> index of the first move that is not a legal move when the line is played from the
 /// position (through find_move, i.e. the engine's own legal-move generator, which C01 ties to the rules), or -1 when all are
 fn cmd_playable() {
@@ -1403,6 +1459,7 @@ pub fn main(args: &[String]) {
         "matefacts" => cmd_matefacts(),
         "pairs" => cmd_pairs(),
         "playable" => cmd_playable(),
+        "backward" => cmd_backward(),
         "tofen" => cmd_tofen(),
         "randfens" => cmd_randfens(&args[1..]),
         "eval" => cmd_eval(),
